@@ -60,6 +60,11 @@ FIRST_MISSED = {
     "C01-6": "no check reported it -> WIN-5: every queued packet is the one just received from Send or a newly allocated ping",
     "C02-6": "no check reported it -> RDC-3: the count of every Flush a Write performs is accounted; C02 imports C15/C16",
     "C04-5": "no check reported it -> HSK-VER: act 3 must echo the version chosen in act 2 (comparison with h.version under ActNum == act3)",
+    "C07-5": "own property silent (reported by C03 for a side reason) -> C07 ERRUSE: a value returned with an error is not used (or re-read from the field it was stored in) before the error was found nil",
+    "C07-6": "own property silent (reported by C01/C09 WIN-4; same change as C09-4) -> C07 shares WIN-4",
+    "C08-5": "own property silent (reported by C02/C04 KEYSEP) -> C08 shares KEYSEP",
+    "C08-6": "no check reported it -> PAIR: every successful return of ReadHeader/ReadBody/WriteMessage has passed its Decrypt/Encrypt calls; C02 imports C08",
+    "C13-6": "no check reported it -> KA-2: the pong timer is Reset only inside the arming sequence of a ping leg",
     "C06-3": "no check reported it -> RATELIMIT: once lastResend is refreshed the packets are transmitted",
 }
 
